@@ -13,7 +13,7 @@ CHECKS = {
  'C14': dict(
     text='TLC model-checks spec/GridSeq.tla (Grid as a Python list: every mutator with Python index arithmetic, refusal rules, derived grids) '
          'exhaustively; TLC prints every state with its observation table and every edge, each edge is replayed on real Grids (cold and warm id '
-         'index) and all observations compared; seeded random histories are validated by Trace_GridSeq.tla.',
+         'index) and all observations compared; seeded random histories (two live grids: the parent of a derivation stays parked and the history switches between them) are validated by Trace_GridSeq.tla.',
     ref='DESIGN.md 5/C14', technique='TLA+ spec GridSeq + TLC exhaustive model check; TLC state/edge generation replayed on the code; TLC trace validation',
     note='rows identified by object identity over a small alphabet; MaxLen 3 in the exhaustive part; slice assignment not claimed'),
  'C15': dict(
@@ -95,9 +95,11 @@ CHECKS = {
  'C11': dict(
     text='spec/FilterSem.tla: filter AST, renderer with spacing/parenthesis styles, precedence parser machine PStep (Parse(Render(ast)) = ast model-checked for all ASTs of size <=4), Sem(ast,row,grid) as the set of allowed truth values over '
          'abstract tag valuations, limit and result-grid shape.  TLC generates every AST of size <=3 (plus and/or chains) x literal kind x operator with rows realising all valuations and the expected selection; each is run through Grid.filter '
-         '(with and without limit) and row identities, order, shape and source-unchanged are compared; seeded random larger filters are judged by TLC (Trace_FilterSem.tla).',
-    ref='DESIGN.md 5/C11', technique='TLA+ spec FilterSem (parser machine + semantics) model-checked; TLC-generated filters and expected selections replayed on Grid.filter; TLC trace judgement of random filters',
-    note='string ids for reference following; != between different kinds and tags mapped to None are not constrained; comparisons between kindred kinds (bool/number/quantity) only required not to raise'),
+         '(with and without limit) and row identities, order, shape and source-unchanged are compared; seeded random larger filters are judged by TLC (Trace_FilterSem.tla).  '
+         'spec/FilterLex.tla reads filter TEXT by characters (recursive descent) and gives every literal the value the ZINC reader machine (ZincRead.tla) assigns to its characters; '
+         'seeded filters over spelling variants of every literal kind on grids with Ref ids and near-equal values are judged by Trace_FilterLex.tla.',
+    ref='DESIGN.md 5/C11, 11.6', technique='TLA+ specs FilterSem (parser machine + semantics) and FilterLex (character-level reader, literal values via ZincRead) checked with TLC; TLC-generated filters and expected selections replayed on Grid.filter; TLC trace judgement of random filters',
+    note='!= between different kinds and tags mapped to None are not constrained; comparisons between kindred kinds (bool/number/quantity, str/uri/bin, date/date-time) only required not to raise; literal kinds outside the Haystack filter grammar may be refused'),
  'C12': dict(
     text='spec/FilterGen.tla: the compile pipeline Tokenise->BuildAst->Emit->Exec->Eval with provenance-tagged source tokens; invariant PayloadOnlyInLiterals holds for the constants-table emitter and TLC must find the counterexample for the repr emitter (documented reason).  '
          'TLC generates shape x payload-position cases; each is instantiated with canary payloads and evaluated under an audit hook; audit events, canary flags, module-global diffs, grid snapshot, generated-code skeleton equality and foreign names in co_names are logged and judged by TLC (Trace_FilterGen.tla).',
